@@ -489,6 +489,29 @@ func genProject(r *rng.R, nPerturb int) (pProject, []string) {
 			}
 		}
 	}
+	if len(p.Controllers) > 1 && r.Chance(1, 4) {
+		// the same verb + method route under TWO controllers with different prefixes: no overlap, no warning
+		src := p.Controllers[0].Methods[0]
+		dst := &p.Controllers[1].Methods[0]
+		hasParams := false
+		for _, a := range dst.Annots {
+			hasParams = hasParams || a.Name == "Path"
+		}
+		srcParams := false
+		for _, a := range src.Annots {
+			srcParams = srcParams || a.Name == "Path"
+		}
+		if !hasParams && !srcParams {
+			for i := range dst.Annots {
+				for _, a := range src.Annots {
+					if a.Name == dst.Annots[i].Name && (a.Name == "Method" || a.Name == "Route") {
+						dst.Annots[i].Value = a.Value
+					}
+				}
+			}
+			applied = append(applied, "same-route-other-controller")
+		}
+	}
 	if nPerturb > 0 && r.Chance(1, 4) {
 		// a same-verb overlapping template next to an existing route: a path-conflict WARNING
 		ci := r.Intn(len(p.Controllers))
